@@ -90,6 +90,12 @@ def sign_bundles(
         #
         signatures: set[Signature] = set()
         for _sign_key in signing_keys:
+            if any(
+                x.key_identifier == _sign_key.dns.key_identifier for x in signatures
+            ):
+                # A key named more than once under 'sign' signs once (signatures made with
+                # randomised algorithms, like ECDSA, would otherwise not collapse in the set).
+                continue
             _sig = _sign_keys(_bundle, keys_to_sign, _sign_key, ksk_policy)
             if _sig:
                 signatures.add(_sig)
